@@ -9,7 +9,7 @@ mkdir -p $w && rsync -a --exclude .git --exclude testdata /repo/ $w/ || exit 2
 trap "rm -rf $w" EXIT
 ( cd $w && patch -s -p1 < $sd/patch.diff ) || { echo "PATCH-FAIL"; exit 3; }
 for p in $props; do
-  out=$(/verif/bin/govc check $p --repo $w 2>&1); rc=$?
+  out=$(VERIF_OUT=/var/tmp/seedout /verif/bin/govc check $p --repo $w 2>&1); rc=$?
   echo "seed=$(basename $sd) prop=$p exit=$rc $(echo "$out" | grep -c '^VIOLATION') violations; $(echo "$out" | tail -1)"
   echo "$out" | grep -E "^(VIOLATION|OUTSIDE|STALE)" | head -3
 done
